@@ -264,15 +264,15 @@ def part_c(pshape, expand, nd, r, case):
             fv(v)
         if sorted(used) != list(range(npx)):     # each physical axis exactly once (injective patterns only)
             continue
-        for default in (None, 7.):
-            spec = {"physical": phys.tolist(), "vaxes": list(vaxes)}
+        for default, as_int in ((None, False), (7., False), (0.5, True), (math.inf, True)):
+            spec = {"physical": (phys.to(torch.int64).tolist() if as_int else phys.tolist()), "vaxes": list(vaxes)}   # JSON integers are legal numbers
             if expand:
                 spec["expand"] = list(expand)
             if default is not None:
                 spec["default"] = default
             key = ('C', json.dumps(spec, sort_keys=True))
             try:
-                t = fggs.json_to_weights(json.loads(json.dumps(spec))).to_dense()
+                t = fggs.json_to_weights(json.loads(json.dumps(spec).replace('Infinity', '1e999'))).to_dense()
             except Exception as e:
                 r.exc(e, 'json_to_weights', ('Cspec', json.dumps(spec)), key)
                 continue
